@@ -517,4 +517,90 @@ theorem descr_le (F : Func) (a b : State) (env : Env) (hle : leState a b = true)
   · simp only [hp, if_false] at this ⊢
     exact gammaC_leVN _ _ c (leState_lget a b hle v) this
 
+
+/-- `set` for a register that the instruction may leave undefined (phis). -/
+theorem descr_set_opt (F : Func) (s : State) (env : Env) (v : Nat) (x : VN) (oc : Option CVal)
+    (h : descr F s env)
+    (hc : ∀ c, oc = some c → ((F.info v).ptr = true → gammaC x c) ∧
+      ((F.info v).ptr = false → gammaC ⟨.zero, .never⟩ c)) :
+    descr F (set F s v x) (setv env v oc) := by
+  cases oc with
+  | some c => exact descr_set_def F s env v x c h (hc c rfl).1 (hc c rfl).2
+  | none =>
+    intro w c' hw
+    rw [getRaw_set]
+    by_cases hwv : w = v
+    · subst hwv; simp [setv] at hw
+    · simp only [setv, hwv, if_false] at hw
+      simp only [hwv, false_and, if_false]
+      exact h w c' hw
+
+theorem lget_map_entry (l : List VInfo) (v : Nat) :
+    lget (l.map entryVal) v = entryVal (l.getD v ⟨.other, false, false⟩) := by
+  induction l generalizing v with
+  | nil => simp [lget_nil, entryVal, VN.bot]
+  | cons y ys ih =>
+    cases v with
+    | zero => simp [lget]
+    | succ n => simpa [lget] using ih n
+
+theorem getRaw_entry (F : Func) (v : Nat) :
+    getRaw F (entryState F) v = if (F.info v).ptr = false then ⟨.zero, .never⟩ else entryVal (F.info v) := by
+  simp only [getRaw, entryState, lget_map_entry, Func.info]
+  rfl
+
+theorem range_map_getD {α : Type} (n j : Nat) (f : Nat → α) (d : α) (h : j < n) :
+    ((List.range n).map f).getD j d = f j := by
+  simp [List.getD_eq_getElem?_getD, List.getElem?_map, List.getElem?_range h]
+
+/-- blocks outside the function are empty. -/
+theorem block_of_ge (F : Func) (b : Nat) (h : F.blocks.length ≤ b) : F.block b = ⟨[], [], []⟩ := by
+  simp [Func.block, List.getD_eq_getElem?_getD, List.getElem?_eq_none h]
+
+theorem block_mem (F : Func) (b : Nat) (h : b < F.blocks.length) : F.block b ∈ F.blocks := by
+  simp only [Func.block, List.getD_eq_getElem?_getD, List.getElem?_eq_getElem h, Option.getD_some]
+  exact List.getElem_mem h
+
+theorem wf_instrOk (F : Func) (hwf : wfFunc F = true) (b : Nat) (i : Instr) (hi : i ∈ (F.block b).instrs) :
+    instrOk F i = true := by
+  by_cases hb : b < F.blocks.length
+  · have hm := block_mem F b hb
+    simp only [wfFunc, List.all_eq_true] at hwf
+    have := hwf _ hm
+    simp only [blockOk, Bool.and_eq_true, List.all_eq_true] at this
+    exact this.1 i hi
+  · rw [block_of_ge F b (by omega)] at hi
+    cases hi
+
+theorem wf_if_succs (F : Func) (hwf : wfFunc F = true) (b c : Nat) (hi : .iff c ∈ (F.block b).instrs) :
+    (F.block b).succs.getD 0 0 ≠ (F.block b).succs.getD 1 0 := by
+  by_cases hb : b < F.blocks.length
+  · have hm := block_mem F b hb
+    simp only [wfFunc, List.all_eq_true] at hwf
+    have := hwf _ hm
+    simp only [blockOk, Bool.and_eq_true, List.all_eq_true] at this
+    have := this.2 _ hi
+    simpa using this
+  · rw [block_of_ge F b (by omega)] at hi
+    cases hi
+
+theorem phiPairs_mem (i : Nat) (instrs : List Instr) (p : Nat × Nat) (hp : p ∈ phiPairs i instrs) :
+    ∃ es, Instr.phi p.1 es ∈ instrs ∧ p.2 ∈ es := by
+  induction instrs with
+  | nil => simp [phiPairs] at hp
+  | cons j js ih =>
+    cases j with
+    | phi v es =>
+      simp only [phiPairs] at hp
+      split at hp
+      · next e he =>
+        rcases List.mem_cons.1 hp with h | h
+        · subst h
+          exact ⟨es, List.mem_cons_self .., List.mem_of_getElem? he⟩
+        · obtain ⟨es', h1, h2⟩ := ih h
+          exact ⟨es', List.mem_cons_of_mem _ h1, h2⟩
+      · obtain ⟨es', h1, h2⟩ := ih hp
+        exact ⟨es', List.mem_cons_of_mem _ h1, h2⟩
+    | _ => simp [phiPairs] at hp
+
 end Verif.C15
